@@ -213,8 +213,18 @@ var checkHist = ev.Register("histogram", func(c *Case) ev.Outcome {
 			stats.HistogramQuantile(h, 0)
 			stats.HistogramQuantile(h, 1)
 		}
-		if u3, b3, o3 := h.Counts(); u3 != under || o3 != over || fmt.Sprint(b3) != fmt.Sprint(bins) {
+		u3, b3, o3 := h.Counts()
+		if u3 != under || o3 != over || fmt.Sprint(b3) != fmt.Sprint(bins) {
 			return ev.Fail("step %d: a quantile query changed the counts", step)
+		}
+		// what a caller does with the returned slice (append a total to it, say) is its own
+		// business: it must not reach the histogram's other counters
+		_ = append(b3, 987654321)
+		if len(b3) > 0 {
+			_ = append(b3[:len(b3)-1], b3[len(b3)-1])
+		}
+		if u4, b4, o4 := h.Counts(); u4 != under || o4 != over || fmt.Sprint(b4) != fmt.Sprint(bins) {
+			return ev.Fail("step %d: appending to the slice returned by Counts changed the counters: under %d -> %d, over %d -> %d, bins %v -> %v", step, under, u4, over, o4, bins, b4)
 		}
 	}
 	total := under + over
